@@ -3,6 +3,7 @@ package props
 import (
 	"fmt"
 	"strconv"
+	"strings"
 
 	sdk "github.com/cosmos/cosmos-sdk/types"
 	banktypes "github.com/cosmos/cosmos-sdk/x/bank/types"
@@ -174,6 +175,15 @@ func (c09Sys) Step(s *c09State, l engine.Letter) (*c09State, string, *engine.Vio
 			return c, "error", viol("deposit-at-the-expected-sequence-is-processed", "deposit at the expected sequence failed: %v", res.Err)
 		}
 		c.nextL1++
+		// frame of a processed deposit: both sequences, the first registration of the denom, the recipient's
+		// balance and the supply of that denom; with a hook, the hook signer's account sequence
+		fr := frameL2{accounts: map[string]sdk.AccAddress{"alice": world.Addr("alice")}, denoms: []string{d.denom}, nextL1: true, nextL2: true, pairOf: []string{d.denom}}
+		if d.hookFail {
+			fr.sequenceOf = []sdk.AccAddress{world.Addr("alice")}
+		}
+		if left := fr.violations(s.w, s.ctx, ctx); len(left) > 0 {
+			return c, "framed", tagged(viol("deposit-touches-nothing-else", "a processed deposit of %d%s (valid recipient=%v, failing hook=%v) also changed: %s", d.amt, dn(d.denom), d.valid, d.hookFail, strings.Join(left, "; ")), "frame", "deposit")
+		}
 		first, had := s.pairs[d.denom]
 		if !had {
 			c.pairs[d.denom] = d.base
@@ -248,6 +258,10 @@ func (c09Sys) Step(s *c09State, l engine.Letter) (*c09State, string, *engine.Vio
 		c.bal[d.by+"/"+d.denom] -= d.amt
 		c.supply[d.denom] -= d.amt
 		c.nextL2++
+		// frame: the signer's balance of that denom, its supply and the L2 sequence — nothing else
+		if left := (frameL2{accounts: map[string]sdk.AccAddress{d.by: world.Addr(d.by)}, denoms: []string{d.denom}, nextL2: true}).violations(s.w, s.ctx, ctx); len(left) > 0 {
+			return c, "accepted", tagged(viol("withdrawal-removes-amount-from-signer-only", "an accepted withdrawal of %d%s by %s also changed: %s", d.amt, dn(d.denom), d.by, strings.Join(left, "; ")), "frame", "withdraw")
+		}
 		return c, "accepted", nil
 	}
 	panic("unknown letter")
